@@ -1,8 +1,8 @@
 (* C08/Props.v — the property theorems, nothing else.
-   Model: C08/Model.v.  Proofs: Frame.v, PassA.v, PassB.v, PassC.v, PassD.v, Chunk.v, Live.v, Live2.v, Live3.v. *)
+   Model: C08/Model.v.  Proofs: Frame.v, PassA.v, PassB.v, PassC.v, PassD.v, PassE.v, Chunk.v, Live.v, Live2.v, Live3.v. *)
 From Coq Require Import List NArith ZArith Bool.
 Import ListNotations.
-Require Import Base.Wire Base.PyStr C08.Model C08.Frame C08.PassA C08.PassB C08.PassC C08.PassD C08.Chunk C08.Live C08.Live2 C08.Live3.
+Require Import Base.Wire Base.PyStr C08.Model C08.Frame C08.PassA C08.PassB C08.PassC C08.PassD C08.PassE C08.Chunk C08.Live C08.Live2 C08.Live3.
 
 (* For every configuration, every state satisfying the invariant (in particular
    the state right after a reset) and EVERY sequence of server messages
@@ -19,6 +19,45 @@ Theorem C08_registration_safety :
   InvA (fst (run_msgs c s ms)) /\ Forall (OutA c) (snd (run_msgs c s ms)).
 Proof. exact PassA.ok_run. Qed.
 Print Assumptions C08_registration_safety.
+
+(* "requests only capabilities the server advertised", against the SERVER's own
+   view: [upd m a] is the set the server advertises after its message m (CAP LS
+   and CAP NEW add the names, CAP DEL withdraws them, a driver reset starts a
+   new connection), computed from the messages alone; run_tag tags every output
+   with that set at the time.  For every configuration, every message sequence
+   (any interleaving of LS / NEW / DEL / ACK / NAK / ...) and every state whose
+   capabilities_ls lies inside a (AdvI): every CAP REQ (its GReq event) names
+   only capabilities in the server-side set, and capabilities_ls stays inside
+   it -- so a CAP DEL removes the capability from capabilities_ls whether or
+   not it was ever acknowledged.  (C08_registration_safety states the same
+   clause against the bot's own capabilities_ls.) *)
+Theorem C08_req_advertised_by_server :
+  forall c ms s a, AdvI a s ->
+  let r := run_tag c s a ms in
+  AdvI (snd (fst r)) (fst (fst r)) /\ Forall (fun oa => OutE (snd oa) (fst oa)) (snd r).
+Proof. exact run_adv. Qed.
+Print Assumptions C08_req_advertised_by_server.
+
+(* run_tag's outputs are those of run_msgs; every connection starts inside the empty advertised set *)
+Theorem C08_req_advertised_start :
+  (forall c ms s a, map fst (snd (run_tag c s a ms)) = snd (run_msgs c s ms)) /\
+  (forall c s, AdvI [] (rstate (reset c s))).
+Proof. split; [intros; apply run_tag_outs|intros c s; exact (proj1 (e_reset c [] s))]. Qed.
+Print Assumptions C08_req_advertised_start.
+
+(* non-vacuity, on the scenario of a withdrawn, never acknowledged capability: LS batch echo-message / ACK batch /
+   DEL echo-message / NEW labeled-response: the second request names labeled-response only *)
+Theorem C08_del_unacked_not_requested :
+  let c := Cfg [s_echo; s_label; [98;97;116;99;104]] false [] [] [] None false false true [104] 3 in
+  let ms := [ICap [[42]; s_LS; [98;97;116;99;104] ++ [32] ++ s_echo]; ICap [[42]; [65;67;75]; [98;97;116;99;104]];
+             ICap [[42]; [68;69;76]; s_echo]; ICap [[42]; [78;69;87]; s_label]] in
+  let r := run_tag c (rstate (reset c (fresh c false))) [] ms in
+  snd (fst r) = [[98;97;116;99;104]; s_label] /\
+  filter (fun oa => match fst oa with GReq _ _ _ => true | _ => false end) (snd r)
+  = [(GReq [[98;97;116;99;104]] [[98;97;116;99;104]; s_echo] [], [[98;97;116;99;104]; s_echo]);
+     (GReq [s_label] [[98;97;116;99;104]; s_label] [[98;97;116;99;104]], [[98;97;116;99;104]; s_label])].
+Proof. exact del_unacked_not_requested. Qed.
+Print Assumptions C08_del_unacked_not_requested.
 
 (* the state after any reset satisfies the invariant: the theorem above applies
    to every connection *)
